@@ -281,7 +281,7 @@ def to_lines(prog, unit="    ", level=0, rng=None):
                 L.append(ind + kw("IF" if j == 0 else "ELIF") + " " + pe(c))
                 L.extend(to_lines(body, unit, level + 1, rng))
             if s[2] is not None:
-                L.append(ind + kw("ELSE"))
+                L.append(ind + kw("ELSE") + (rng.choice(["", "", "", " ", "\t", "  "]) if rng else ""))
                 L.extend(to_lines(s[2], unit, level + 1, rng))
         elif t == "repeat":
             L.append(ind + kw("REPEAT" if rng is None or rng.random() < 0.7 else "FOR") + " " + ((s[1] + ",") if s[1] else "") + pe(s[2]))
@@ -295,7 +295,7 @@ def to_lines(prog, unit="    ", level=0, rng=None):
         elif t == "run":
             L.append(ind + kw("RUN") + " " + s[1] + ((" " + ",".join(pe(a) for a in s[2])) if s[2] else ""))
         elif t == "break":
-            L.append(ind + (rng.choice(["BREAKLOOP", "BREAK_LOOP"]) if rng else "BREAKLOOP"))
+            L.append(ind + (rng.choice(["BREAKLOOP", "BREAK_LOOP"]) + rng.choice(["", "", " ", "\t"]) if rng else "BREAKLOOP"))
         elif t == "continue":
             L.append(ind + (rng.choice(["CONTINUELOOP", "CONTINUE_LOOP", "CONTINUE"]) if rng else "CONTINUELOOP"))
         elif t == "return":
